@@ -60,7 +60,7 @@ var vGrowFn = interpreter.VerifFuncSpec{Params: []byte{i32}, Body: []byte{0x20, 
 // VerifC02_SSA_Reuse: several accesses on the SAME base value (what the bounds-check elision cache keys on), in every
 // order of two boundary offsets, straight, across a call that may grow the memory, across memory.grow, and across an
 // if/else join; plus memory.size / memory.grow results themselves.
-//verif:opts split=shape:8 obl-timeout=240000 wall=1500
+//verif:opts split=shape:10 obl-timeout=240000 wall=1500
 func VerifC02_SSA_Reuse() {
 	offs := vOffs()
 	o1 := offs[verifrt.Choose("off1", len(offs))]
@@ -69,7 +69,17 @@ func VerifC02_SSA_Reuse() {
 	ld2 := cat(lg(0), []byte{0x2d}, memarg(o2))
 	ldw := cat(lg(0), []byte{0x28}, memarg(o2)) // i32.load (wider) base+o2
 	var p vProgram
-	switch verifrt.Choose("shape", 8) {
+	switch verifrt.Choose("shape", 10) {
+	case 8: // if c then load o1 end ; load o3 : a bound checked only in the arm must not cover the access after the join
+		o3 := offs[verifrt.Choose("off3", len(offs))]
+		ld3 := cat(lg(0), []byte{0x2d}, memarg(o3))
+		p = vProgram{mem: true, params: []byte{i32, i32}, results: []byte{i32},
+			body: cat(lg(1), []byte{0x04, 0x40}, ld1, []byte{0x1a, 0x0b}, ld3)}
+	case 9: // if c then load o1 else load o2 end ; load o3 : after the join only the smaller of the two checked extents is known
+		o3 := offs[verifrt.Choose("off3", len(offs))]
+		ld3 := cat(lg(0), []byte{0x2d}, memarg(o3))
+		p = vProgram{mem: true, params: []byte{i32, i32}, results: []byte{i32},
+			body: cat(lg(1), []byte{0x04, 0x7f}, ld1, []byte{0x05}, ld2, []byte{0x0b}, ld3, []byte{0x6a})}
 	case 0: // load ; load ; add
 		p = vProgram{mem: true, params: []byte{i32}, results: []byte{i32}, body: cat(ld1, ld2, []byte{0x6a})}
 	case 1: // narrow then wide on the same base
@@ -133,6 +143,14 @@ func vT2Reuse(offs []uint32) []vProgram {
 				vProgram{name: "st-ld", mem: true, params: []byte{i32, i32}, results: []byte{i32}, body: cat(lg(0), lg(1), []byte{0x3a}, memarg(o1), ld2)},
 				vProgram{name: "if-join", mem: true, params: []byte{i32, i32}, results: []byte{i32}, body: cat(lg(1), []byte{0x04, 0x7f}, ld1, []byte{0x05}, ld2, []byte{0x0b}, ld2, []byte{0x6a})},
 			)
+			for _, o3 := range offs {
+				ld3 := cat(lg(0), []byte{0x2d}, memarg(o3))
+				out = append(out,
+					vProgram{name: "if-noelse-then-wider", mem: true, params: []byte{i32, i32}, results: []byte{i32},
+						body: cat(lg(1), []byte{0x04, 0x40}, ld1, []byte{0x1a, 0x0b}, ld3)},
+					vProgram{name: "if-else-join-third", mem: true, params: []byte{i32, i32}, results: []byte{i32},
+						body: cat(lg(1), []byte{0x04, 0x7f}, ld1, []byte{0x05}, ld2, []byte{0x0b}, ld3, []byte{0x6a})})
+			}
 			for _, cb := range offs {
 				l1a := cat(lg(1), []byte{0x2d}, memarg(o1))
 				l1b := cat(lg(1), []byte{0x2d}, memarg(o2))
